@@ -140,7 +140,8 @@ class ExactAlgorithmCplex(ExactAlgorithmBase, PairwiseBasedAlgorithm):
                 # (and infinite loop obviously)
                 else:
                     # update the ranking to return
-                    new_dataset: Dataset = dataset.sub_problem_from_ids(scc_i_set)
+                    # the rankings where no element of the scc is ranked must be kept: they weigh B[5] / T[5]
+                    new_dataset: Dataset = dataset.sub_problem_from_ids(scc_i_set, keep_all_rankings=True)
                     rankings: List[Ranking] = self._compute_consensus_rankings_with_optim(new_dataset, scoring_scheme,
                                                                                           False, True)
                     for bucket in rankings[0]:
